@@ -168,14 +168,14 @@ def hang_guard(seconds=None):
         signal.signal(signal.SIGALRM, old)
 
 
-def run_engine(path, engine, dev, *, last_len=None, flat=None, knobs=None, breakpoint_handler=None):
+def run_engine(path, engine, dev, *, last_len=None, flat=None, knobs=None, breakpoint_handler=None, timeout=None):
     from flipjump.interpreter import fjm_run
     o = Outcome()
     o.dev = dev
     with engine_env(engine, knobs):
         buf = io.StringIO()
         try:
-            with contextlib.redirect_stdout(buf), hang_guard():
+            with contextlib.redirect_stdout(buf), hang_guard(timeout):
                 ts = fjm_run.run(Path(path), io_device=dev, profile=(engine == 'featured'),
                                  last_ops_debugging_list_length=last_len, flat_max_words=flat,
                                  breakpoint_handler=breakpoint_handler)
